@@ -807,11 +807,13 @@ def render_template(text: str, flags: Dict[str, Any]) -> str:
                 if cm and cm.group(1) in macros:
                     params, body = macros[cm.group(1)]
                     args = []
-                    for a_ in re.findall(r'"((?:[^"\\\\]|\\\\.)*)"|\'((?:[^\'\\\\]|\\\\.)*)\'|([A-Za-z_]\w*)', cm.group(2)):
+                    for a_ in re.findall(r'"((?:[^"\\\\]|\\\\.)*)"|\'((?:[^\'\\\\]|\\\\.)*)\'|([A-Za-z_]\w*)|(-?\d+)', cm.group(2)):
                         if a_[2]:
                             if a_[2] not in env:
                                 raise core.AnalysisError(f"template variable `{a_[2]}` is not supplied")
                             args.append(env[a_[2]])
+                        elif a_[3]:
+                            args.append(int(a_[3]))
                         else:
                             args.append(a_[0] or a_[1])
                     if len(args) != len(params):
@@ -832,6 +834,29 @@ def render_template(text: str, flags: Dict[str, Any]) -> str:
                 val = bool(env[name]) != neg
                 stack.append((active, val))
                 active = active and val
+            elif tag.startswith("set "):
+                sm = re.fullmatch(r"set\s+([A-Za-z_]\w*)\s*=\s*(.+)", tag)
+                if not sm:
+                    raise core.AnalysisError(f"template tag `{{% {tag} %}}` is outside the supported subset")
+                if active:
+                    import ast as _ast
+
+                    def _tv(e):
+                        if isinstance(e, _ast.Constant) and isinstance(e.value, (str, int)):
+                            return e.value
+                        if isinstance(e, _ast.Name):
+                            if e.id not in env:
+                                raise core.AnalysisError(f"template variable `{e.id}` is not supplied")
+                            return env[e.id]
+                        if isinstance(e, _ast.BinOp) and isinstance(e.op, (_ast.Mult, _ast.Add)):
+                            l_, r_ = _tv(e.left), _tv(e.right)
+                            return l_ * r_ if isinstance(e.op, _ast.Mult) else l_ + r_
+                        raise core.AnalysisError(f"template expression `{sm.group(2)}` is outside the supported subset")
+                    try:
+                        env = dict(env)
+                        env[sm.group(1)] = _tv(_ast.parse(sm.group(2), mode="eval").body)
+                    except SyntaxError:
+                        raise core.AnalysisError(f"template expression `{sm.group(2)}` is outside the supported subset")
             elif tag == "else":
                 if not stack:
                     raise core.AnalysisError("template: else without if")
